@@ -208,10 +208,21 @@ theorem interp_chord' (a0 b0 a1 b1 v : Int) (h : a0 ≠ a1) :
 theorem mem_band' (prm : Params) (verts : List Pt) (p : Pt) :
     p ∈ band prm verts ↔
       ∃ s ∈ consec (verts.map (place prm)), ∃ c ∈ walkCentres (ceilPt s.1) (ceilPt s.2),
+        ∃ q ∈ getLayerElements c prm.layers, p = toPixel q := by
+  simp only [band, mem_distinct', List.mem_flatMap, walkTwoVertices, List.mem_map]
+  constructor
+  · rintro ⟨s, hs, c, hc, q, hq, rfl⟩; exact ⟨s, hs, c, hc, q, hq, rfl⟩
+  · rintro ⟨s, hs, c, hc, q, hq, rfl⟩; exact ⟨s, hs, c, hc, q, hq, rfl⟩
+
+theorem mem_bandUpstream' (prm : Params) (verts : List Pt) (p : Pt) :
+    p ∈ bandUpstream prm verts ↔
+      ∃ s ∈ consec (verts.map (place prm)), ∃ c ∈ walkCentres (ceilPt s.1) (ceilPt s.2),
         p ∈ getLayerElements c prm.layers := by
-  simp only [band, mem_distinct', List.mem_flatMap, walkTwoVertices]
+  simp only [bandUpstream, mem_distinct', List.mem_flatMap, walkTwoVerticesUpstream]
 
 theorem band_nodup' (prm : Params) (verts : List Pt) : (band prm verts).Nodup := distinct_nodup' _
+
+theorem bandUpstream_nodup' (prm : Params) (verts : List Pt) : (bandUpstream prm verts).Nodup := distinct_nodup' _
 
 theorem getD_map_zero (c : Rat) (l : List Rat) (i : Nat) :
     (l.map fun v => c * v).getD i 0 = c * l.getD i 0 := by
@@ -527,12 +538,44 @@ theorem pixelOf_inj (p q : Pt)
   simp only at hp hq hx hy
   exact ⟨by rw [← hp.1, ← hq.1, hx], by rw [← hp.2, ← hq.2, hy]⟩
 
-theorem band_pixels_nodup_partial' (prm : Params) (verts : List Pt)
-    (h : ∀ p ∈ band prm verts, ((p.x.floor : Int) : Rat) = p.x ∧ ((p.y.floor : Int) : Rat) = p.y) :
-    ((band prm verts).map pixelOf).Nodup := by
-  apply List.Nodup.map_on _ (band_nodup' prm verts)
+theorem bandUpstream_pixels_nodup_partial' (prm : Params) (verts : List Pt)
+    (h : ∀ p ∈ bandUpstream prm verts, ((p.x.floor : Int) : Rat) = p.x ∧ ((p.y.floor : Int) : Rat) = p.y) :
+    ((bandUpstream prm verts).map pixelOf).Nodup := by
+  apply List.Nodup.map_on _ (bandUpstream_nodup' prm verts)
   intro p hp q hq hpq
   exact pixelOf_inj p q (h p hp) (h q hq) hpq
+
+theorem toPixel_int (q : Pt) :
+    ((((toPixel q).x.floor : Int) : Rat) = (toPixel q).x) ∧ ((((toPixel q).y.floor : Int) : Rat) = (toPixel q).y) := by
+  unfold toPixel
+  simp only [Rat.floor_intCast, and_self]
+
+theorem pixelOf_toPixel' (q : Pt) : pixelOf (toPixel q) = pixelOf q := by
+  have h := toPixel_int q
+  unfold pixelOf
+  rw [truncI_of_int _ h.1, truncI_of_int _ h.2]
+  unfold toPixel
+  simp only [Rat.floor_intCast]
+
+theorem band_int' (prm : Params) (verts : List Pt) :
+    ∀ p ∈ band prm verts, ((p.x.floor : Int) : Rat) = p.x ∧ ((p.y.floor : Int) : Rat) = p.y := by
+  intro p hp
+  obtain ⟨s, _, c, _, q, _, rfl⟩ := (mem_band' prm verts p).mp hp
+  exact toPixel_int q
+
+theorem band_pixels_nodup' (prm : Params) (verts : List Pt) : ((band prm verts).map pixelOf).Nodup := by
+  apply List.Nodup.map_on _ (band_nodup' prm verts)
+  intro p hp q hq hpq
+  exact pixelOf_inj p q (band_int' prm verts p hp) (band_int' prm verts q hq) hpq
+
+theorem band_pixels_eq_upstream' (prm : Params) (verts : List Pt) (xy : Int × Int) :
+    xy ∈ (band prm verts).map pixelOf ↔ xy ∈ (bandUpstream prm verts).map pixelOf := by
+  simp only [List.mem_map, mem_band', mem_bandUpstream']
+  constructor
+  · rintro ⟨p, ⟨s, hs, c, hc, q, hq, rfl⟩, rfl⟩
+    exact ⟨q, ⟨s, hs, c, hc, hq⟩, (pixelOf_toPixel' q).symm⟩
+  · rintro ⟨q, ⟨s, hs, c, hc, hq⟩, rfl⟩
+    exact ⟨toPixel q, ⟨s, hs, c, hc, q, hq, rfl⟩, pixelOf_toPixel' q⟩
 
 /-- the per-interface value function: `intensityValues = ifs.map (valueOf …)` -/
 
